@@ -49,7 +49,7 @@ theorem takeWhile_all {α} (p : α → Bool) (l : List α) (h : ∀ x ∈ l, p x
   | cons a l ih =>
     have ha := h a (by simp)
     have := ih (fun x hx => h x (by simp [hx]))
-    simp [List.takeWhile_cons, List.dropWhile_cons, ha, this]
+    simp [ha, this]
 
 /-! ### string content -/
 
@@ -71,5 +71,16 @@ theorem parseString_plain : ∀ (fuel : Nat) (rs acc : List Nat) (err : Bool),
       rw [if_pos this]
       rw [ih rs (r :: acc) err (by simp at hlen; omega) (fun x hx => hp x (by simp [hx]))]
       simp
+
+theorem scaled_lt (frac scale S : Nat) (h : scale ≤ S) (hf : frac < 10 ^ scale) :
+    scaleFractional frac scale S = frac * 10 ^ (S - scale) ∧ frac * 10 ^ (S - scale) < 10 ^ S := by
+  have hp : (10 : Nat) ^ S = 10 ^ scale * 10 ^ (S - scale) := by rw [← Nat.pow_add]; congr 1; omega
+  constructor
+  · unfold scaleFractional
+    by_cases he : scale ≥ S
+    · have : scale = S := by omega
+      simp [this]
+    · simp [he, Nat.mul_comm]
+  · rw [hp]; exact Nat.mul_lt_mul_of_pos_right hf (Nat.pow_pos (by decide))
 
 end Verif.Proofs.Literals
